@@ -5,6 +5,7 @@ package main
 import (
 	"encoding/json"
 	"fmt"
+	"github.com/valyala/fasthttp"
 	"os"
 	"path/filepath"
 	"testing"
@@ -91,98 +92,111 @@ func TestVerif_C07_Handler(t *testing.T) {
 			real = append(real, ep)
 		}
 		multi := vkNewMulti(1, real...)
-		h := newMultiEpochHandler(multi, nil)
-		for acc := 0; acc <= 3; acc++ {
-			H := history(loaded, acc)
-			total := len(H)
-			limits := []int{0, 1001}
-			for l := 1; l <= total; l++ {
-				limits = append(limits, l)
+		handlers := []func(*fasthttp.RequestCtx){newMultiEpochHandler(multi, nil)}
+		if mask == 7 || mask == 5 {
+			// the --gsfa-only-signatures mode of the server: same order and paging, entries carry the signature only
+			so := NewMultiEpoch(&Options{GsfaOnlySignatures: true, EpochSearchConcurrency: 1})
+			for _, ep := range real {
+				if err := so.AddEpoch(ep.Epoch(), ep); err != nil {
+					R.Internal("AddEpoch: %v", err)
+					return
+				}
 			}
-			for _, limit := range limits {
-				for b := -1; b < total; b++ {
-					for u := -1; u < total; u++ {
-						if R.Expired() {
-							return
-						}
-						opts := map[string]interface{}{}
-						if limit != 0 {
-							opts["limit"] = limit
-						}
-						if b >= 0 {
-							opts["before"] = H[b].String()
-						}
-						if u >= 0 {
-							opts["until"] = H[u].String()
-						}
-						ob, _ := json.Marshal(opts)
-						body := fmt.Sprintf(`{"jsonrpc":"2.0","id":1,"method":"getSignaturesForAddress","params":[%q,%s]}`, cargen.Account(acc).String(), ob)
-						start := 0
-						if b >= 0 {
-							start = b + 1
-						}
-						end := total
-						if u >= start {
-							end = u + 1
-						}
-						want := H[start:end]
-						eff := limit
-						if eff <= 0 || eff > 1000 {
-							eff = 1000
-						}
-						if len(want) > eff {
-							want = want[:eff]
-						}
-						q := map[string]interface{}{"variant": "handler", "loaded_mask": mask, "account": acc, "options": opts}
-						st := explore.Search(explore.Config{Bound: -1}, func(c *explore.Ctx) explore.Result {
-							vsched.SetFreeCtx(c)
-							defer vsched.SetFreeCtx(nil)
-							_, resp, pan := vkRPC(h, body)
-							var res explore.Result
-							if pan != nil {
-								res.Violation = &explore.Violation{Key: "C07|panic|handler", What: fmt.Sprintf("getSignaturesForAddress panicked: %v", pan)}
-								return res
+			handlers = append(handlers, newMultiEpochHandler(so, nil))
+		}
+		for hi, h := range handlers {
+			for acc := 0; acc <= 3; acc++ {
+				H := history(loaded, acc)
+				total := len(H)
+				limits := []int{0, 1001}
+				for l := 1; l <= total; l++ {
+					limits = append(limits, l)
+				}
+				for _, limit := range limits {
+					for b := -1; b < total; b++ {
+						for u := -1; u < total; u++ {
+							if R.Expired() {
+								return
 							}
-							var m struct {
-								Result []map[string]interface{} `json:"result"`
-								Error  interface{}              `json:"error"`
+							opts := map[string]interface{}{}
+							if limit != 0 {
+								opts["limit"] = limit
 							}
-							if err := json.Unmarshal(resp, &m); err != nil || m.Error != nil {
-								res.Violation = &explore.Violation{Key: "C07|handler-error", What: fmt.Sprintf("request %s answered %s", body, resp)}
-								return res
+							if b >= 0 {
+								opts["before"] = H[b].String()
 							}
-							var got []string
-							for _, r := range m.Result {
-								s, _ := r["signature"].(string)
-								got = append(got, s)
+							if u >= 0 {
+								opts["until"] = H[u].String()
 							}
-							var w []string
-							for _, s := range want {
-								w = append(w, s.String())
+							ob, _ := json.Marshal(opts)
+							body := fmt.Sprintf(`{"jsonrpc":"2.0","id":1,"method":"getSignaturesForAddress","params":[%q,%s]}`, cargen.Account(acc).String(), ob)
+							start := 0
+							if b >= 0 {
+								start = b + 1
 							}
-							res.Outcome = fmt.Sprint(got)
-							if fmt.Sprint(got) != fmt.Sprint(w) {
-								class := "json-content"
-								if len(got) == len(w) {
-									class = "json-order"
+							end := total
+							if u >= start {
+								end = u + 1
+							}
+							want := H[start:end]
+							eff := limit
+							if eff <= 0 || eff > 1000 {
+								eff = 1000
+							}
+							if len(want) > eff {
+								want = want[:eff]
+							}
+							q := map[string]interface{}{"variant": "handler", "loaded_mask": mask, "account": acc, "options": opts, "signatures_only": hi == 1}
+							st := explore.Search(explore.Config{Bound: -1}, func(c *explore.Ctx) explore.Result {
+								vsched.SetFreeCtx(c)
+								defer vsched.SetFreeCtx(nil)
+								_, resp, pan := vkRPC(h, body)
+								var res explore.Result
+								if pan != nil {
+									res.Violation = &explore.Violation{Key: "C07|panic|handler", What: fmt.Sprintf("getSignaturesForAddress panicked: %v", pan)}
+									return res
 								}
-								res.Violation = &explore.Violation{Key: "C07|" + class, What: fmt.Sprintf("account %d, epochs mask %03b, options %s: want %v got %v", acc, mask, ob, w, got)}
+								var m struct {
+									Result []map[string]interface{} `json:"result"`
+									Error  interface{}              `json:"error"`
+								}
+								if err := json.Unmarshal(resp, &m); err != nil || m.Error != nil {
+									res.Violation = &explore.Violation{Key: "C07|handler-error", What: fmt.Sprintf("request %s answered %s", body, resp)}
+									return res
+								}
+								var got []string
+								for _, r := range m.Result {
+									s, _ := r["signature"].(string)
+									got = append(got, s)
+								}
+								var w []string
+								for _, s := range want {
+									w = append(w, s.String())
+								}
+								res.Outcome = fmt.Sprint(got)
+								if fmt.Sprint(got) != fmt.Sprint(w) {
+									class := "json-content"
+									if len(got) == len(w) {
+										class = "json-order"
+									}
+									res.Violation = &explore.Violation{Key: "C07|" + class, What: fmt.Sprintf("account %d, epochs mask %03b, options %s: want %v got %v", acc, mask, ob, w, got)}
+								}
+								return res
+							})
+							R.Evaluations += st.Executions
+							R.States++
+							R.Transitions += st.Executions
+							R.TracesValidated += st.Executions
+							if len(want) > 1 {
+								R.NonTrivial += st.Executions
 							}
-							return res
-						})
-						R.Evaluations += st.Executions
-						R.States++
-						R.Transitions += st.Executions
-						R.TracesValidated += st.Executions
-						if len(want) > 1 {
-							R.NonTrivial += st.Executions
-						}
-						R.Add("handler_requests", 1)
-						R.Add("handler_map_orders_explored", st.Executions)
-						for _, f := range st.Violations {
-							q["choices"] = f.Choices
-							R.Violation(f.Violation.Key, f.Violation.What, q)
-							break
+							R.Add("handler_requests", 1)
+							R.Add("handler_map_orders_explored", st.Executions)
+							for _, f := range st.Violations {
+								q["choices"] = f.Choices
+								R.Violation(f.Violation.Key, f.Violation.What, q)
+								break
+							}
 						}
 					}
 				}
